@@ -28,6 +28,20 @@ CLAIMED["C19"] = dict(
     technique="Lean 4 invariant proof over operation histories + extracted tables + exact model/implementation correspondence",
     ref="DESIGN.md §5 C19")
 
+CLAIMED["C17"] = dict(
+    text="Lean 4 proof: the diagonal compensation of RateMatrix.set_rate is re-extracted from source on every run and proved "
+         "to leave every column sum unchanged, to store the assigned value and to touch no other off-diagonal element; lifted by "
+         "induction to every history of assignments (zero column sums, last assigned value wins, diagonal assignments refused). "
+         "For every expansion order, refinement, step and number of stored points the short-exponential population propagation "
+         "conserves the population sum when columns sum to zero (loop-invariant proof of the shared Taylor stepping). The grid "
+         "algebra of get_PropagationMatrix (U_i = E^i U_0, U_0 = 1 | E^Ns | E_dt) is proved in any monoid. Tied to the code by "
+         "bit-exact runs of set_rate histories, 1e-9 runs of propagate and of sub-axis propagation matrices; non-negativity and "
+         "the distance to the matrix exponential (truncation bound) are measured against scipy expm by the oracle, not proved.",
+    note="Lean kernel + standard axioms; extractor for the set_rate arithmetic; hand model of which cells set_rate writes and of the "
+         "propagation loop; scipy.linalg.expm / numpy.linalg.eig as externals; accuracy clauses (bound vs exp, positivity) observed only.",
+    technique="Lean 4 theorems over extracted kernel + loop-invariant induction + model/implementation correspondence",
+    ref="DESIGN.md §5 C17")
+
 NOT_APPLICABLE = {}
 
 
